@@ -129,13 +129,16 @@ func (m *Module) currentFields() map[string]map[string]map[string]string {
 				continue
 			}
 			fs := map[string]string{}
+			ord := map[string]string{}
 			for i := 0; i < st.NumFields(); i++ {
 				fs[st.Field(i).Name()] = fieldTypeString(p.Pkg, st.Field(i))
+				ord[st.Field(i).Name()] = fmt.Sprintf("%03d", i)
 			}
 			if out[path] == nil {
 				out[path] = map[string]map[string]string{}
 			}
 			out[path][t.Name()+"#fields"] = fs
+			out[path][t.Name()+"#order"] = ord
 		}
 	}
 	return out
@@ -181,7 +184,7 @@ func (m *Module) canonTypes() {
 		}
 		var gone, added []string
 		for t := range ref[path] {
-			if t == "" || strings.HasSuffix(t, "#fields") {
+			if t == "" || strings.HasSuffix(t, "#fields") || strings.HasSuffix(t, "#order") {
 				continue
 			}
 			if p.Pkg.Scope().Lookup(t) == nil {
@@ -267,31 +270,39 @@ func (m *Module) canonFields() {
 			for i := 0; i < st.NumFields(); i++ {
 				cur[st.Field(i).Name()] = true
 			}
+			// per field type: the reference fields that are gone (in reference order) and the new fields (in current
+			// order); equally many of a type are paired in order (renaming does not usually reorder)
+			ro := ref[path][refT+"#order"]
+			goneBy := map[string][]string{}
+			for n, rts := range rf {
+				if !cur[n] {
+					goneBy[rts] = append(goneBy[rts], n)
+				}
+			}
+			for ts := range goneBy {
+				g := goneBy[ts]
+				sort.Slice(g, func(i, j int) bool { return ro[g[i]] < ro[g[j]] })
+			}
+			addedBy := map[string][]*types.Var{}
 			for i := 0; i < st.NumFields(); i++ {
 				f := st.Field(i)
 				if _, known := rf[f.Name()]; known || f.Exported() {
 					continue
 				}
 				ts := fieldTypeString(p.Pkg, f)
-				// reference fields of this type that are gone, and new fields of this type
-				var gone []string
-				for n, rts := range rf {
-					if !cur[n] && rts == ts {
-						gone = append(gone, n)
-					}
+				addedBy[ts] = append(addedBy[ts], f)
+			}
+			for ts, added := range addedBy {
+				gone := goneBy[ts]
+				if len(gone) != len(added) || (len(gone) > 1 && ro == nil) {
+					continue
 				}
-				added := 0
-				for j := 0; j < st.NumFields(); j++ {
-					if _, known := rf[st.Field(j).Name()]; !known && fieldTypeString(p.Pkg, st.Field(j)) == ts {
-						added++
-					}
-				}
-				if len(gone) == 1 && added == 1 {
-					fieldCanon[f] = gone[0]
+				for i, f := range added {
+					fieldCanon[f] = gone[i]
 					if m.renames == nil {
 						m.renames = map[string]string{}
 					}
-					m.renames[fmt.Sprintf("%s.%s.%s (field)", path, t.Name(), gone[0])] = f.Name()
+					m.renames[fmt.Sprintf("%s.%s.%s (field)", path, refT, gone[i])] = f.Name()
 				}
 			}
 		}
